@@ -301,6 +301,37 @@ def main():
     ev["src"] = int(km.to_json() == json0 and all(np.array_equal(a, b) for a, b in zip(w0, km.get_weights())))
     ev["dct"] = int(qcfg == qcfg0 and co == co0)
     events.append(ev)
+  # Activation layers converted to QAdaptiveActivation (prefer_qadaptiveactivation): a quantized layer with state
+  # variables of its own - the conversion succeeds, the classes are the expected ones and, with weight transfer, every
+  # layer that had weights starts from them
+  if shard < 3:
+    for acfg in ("quantized_relu(6)", {"relu": "quantized_relu(6)"}):
+      for topo in ("functional", "sequential"):
+        i = L.Input((5,))
+        lays = [L.Dense(4, name="d1"), L.Activation("relu", name="a1"), L.Dense(3, name="d2")]
+        if topo == "sequential":
+          km = tf.keras.Sequential(lays)
+          km.build((None, 5))
+        else:
+          x = i
+          for lay in lays:
+            x = lay(x)
+          km = tf.keras.Model(i, x)
+        for lay in km.layers:
+          if lay.get_weights():
+            lay.set_weights([np.random.RandomState(rnd.randint(0, 10 ** 6)).uniform(-1, 1, w.shape).astype(np.float32) for w in lay.get_weights()])
+        qcfg = {"QDense": entry("A", "Dense"), "QAdaptiveActivation": acfg}
+        ev = {"adaptive": 1, "exc": 0, "cls_ok": 1, "wts": 1, "transfer": int(shard != 1)}
+        try:
+          qm = qutils.model_quantize(km, copy.deepcopy(qcfg), ABITS, transfer_weights=bool(ev["transfer"]), prefer_qadaptiveactivation=True)
+          ev["cls_ok"] = int([qm.get_layer(n).__class__.__name__ for n in ("d1", "a1", "d2")] == ["QDense", "QAdaptiveActivation", "QDense"])
+          if ev["transfer"]:
+            ev["wts"] = int(all(np.array_equal(a, b) for n in ("d1", "d2")
+                                for a, b in zip(km.get_layer(n).get_weights(), qm.get_layer(n).get_weights())))
+        except Exception as e:
+          ev["exc"] = 1
+          ev["exc_text"] = repr(e)[:200]
+        events.append(ev)
   write_ndjson("%s.%d.ndjson" % (prefix, shard), events)
   json.dump(errors, open("%s.%d.err.json" % (prefix, shard), "w"))
   print(json.dumps({"events": len(events), "errors": len(errors)}))
